@@ -16,8 +16,8 @@ LEVEL_TEXT = (
     'discards work when closed; the visitor is called for every evaluated job with a path derived '
     'from that job. Does not compute that the visited set equals the reachable set for a given model.')
 
-FLOORS = {'C01-R1': 3, 'C01-R2': 3, 'C01-R3': 12, 'C01-R4': 5, 'C01-R5': 3, 'C01-R6': 12,
-          'C01-R7': 5, 'C01-R8': 6, 'C01-R9': 3, 'C01-R10': 4}
+FLOORS = {'C01-R1': 3, 'C01-R2': 3, 'C01-R3': 12, 'C01-R4': 8, 'C01-R5': 3, 'C01-R6': 12,
+          'C01-R7': 5, 'C01-R8': 6, 'C01-R9': 3, 'C01-R10': 4, 'C19-R6': 3}
 
 
 def new_edges(cb):
@@ -219,6 +219,22 @@ def r4_expand_or_sanctioned(ctx, cb):
         raise AnchorMissing('%s: the "nothing awaited" test after the property loop (found %d)' %
                             (b.path, len(aw)))
     sanctioned += aw[0].edges_for(False)
+    # ... and that exit is sound: the flag is raised for every property that still has no discovery
+    # (an Always/Sometimes arm may record the discovery instead)
+    fl = aw[0].on.key
+    raised = [bb for (bb, si, v) in b.const_stores(fl) if v == 1]
+    tests = [c for c in cb.disc_contains if b.dominates(cb.prop_loop.bb, c.bb) and b.dominates(c.bb, cb.exp_main.bb)]
+    recorded = [c.bb for c in cb.disc_inserts] + [c.bb for c in b.calls_to('Entry::or_insert', 'Entry::or_insert_with',
+                                                                        'VacantEntry::insert')
+                                                  if b.dominates(cb.exp_main.bb, c.bb)]
+    undiscovered = [e[1] for c in tests for e in b.branch(c, False)]
+    ru = b.reach(undiscovered, cut_blocks=raised + recorded) if undiscovered else set()
+    ctx.check(bool(tests) and bool(undiscovered) and bool(raised) and cb.prop_loop.bb not in ru, rule,
+              'awaiting-flag-raised-for-every-open-property', b,
+              good='a property without a discovery either gets one or raises the "still awaiting" flag',
+              bad='%s: a property that has no discovery yet can pass through the property loop without raising '
+                  'the "still awaiting discoveries" flag and without being recorded: the nothing-awaited exit then '
+                  'drops the job (and whatever else was drained with it) although a verdict is still open' % cb.strat)
     starts = [e[1] for e in cb.deq_some]
     r = b.reach(starts, cut_edges=sanctioned, cut_blocks=[cb.actions.bb])
     escapes = []
@@ -570,3 +586,8 @@ def run(ctx):
             r6_counters(ctx, F, CB(F, strat))
         with ctx.rule('C01-R8', strat):
             r8_visitor(ctx, F, CB(F, strat))
+    # the path shown to the visitor is rebuilt through Model::next_steps: its pairs must be real steps
+    import c19
+    ctx.doc('C19-R6', 'Model::next_steps pairs every action with next_state(last_state, that action)')
+    with ctx.rule('C19-R6', 'next_steps'):
+        c19.r6_next_steps(ctx, F)
